@@ -73,3 +73,20 @@ CORPUS += [
     Mut('c10-scale-mixture-counts-x-only', 'torchtree/distributions/scale_mixture.py', 'ScaleMixtureNormal._sample_shape', 'return max(…', 'return self.x.tensor.shape[:-1]',
         expect=[('C10.C', 'ScaleMixtureNormal::sample-shape-counts-every-operand')], note='the state of the tree before 8d6ebda'),
 ]
+NUC = 'torchtree/evolution/substitution_model/nucleotide.py'
+CORPUS += [
+    Mut('c10-gmrf-root-height-loses-its-axis', GM, '', "                diff_square *= heights_sorted[..., -1:]\n", "                diff_square *= heights_sorted[..., -1]\n", mode='text',
+        expect=[('C10.R', 'distributions.gmrf::GMRF._call::')]),
+    Mut('c10-benign-gmrf-root-height-axis-put-back', GM, '', "                diff_square *= heights_sorted[..., -1:]\n",
+        "                diff_square = diff_square * heights_sorted[..., -1].unsqueeze(-1)\n", mode='text', benign=True),
+    Mut('c10-gmrf-midpoint-distance-by-one-duration', GM, '', "            diff_square /= (durations[..., :-1] + durations[..., 1:]) / 2.0\n",
+        "            diff_square /= (durations[..., :-1] + durations[..., -1]) / 2.0\n", mode='text', expect=[('C10.R', 'distributions.gmrf::GMRF._call::')]),
+    Mut('c10-joint-terms-broadcast-against-each-other', JD, '', "        return torch.cat(log_p, -1).sum(-1)\n",
+        "        log_p = torch.broadcast_tensors(*log_p)\n        return torch.cat(log_p, -1).sum(-1)\n", mode='text',
+        expect=[('C10.J', 'JointDistributionModel.log_prob::component-terms-are-not-broadcast-against-each-other')]),
+    Mut('c10-benign-joint-sum-written-with-keywords', JD, '', "        return torch.cat(log_p, -1).sum(-1)\n", "        return torch.cat(log_p, dim=-1).sum(dim=-1)\n", mode='text', benign=True),
+    Mut('c10-hky-closed-form-revived', NUC, '', "        # FIXME: does not work with K>1 rate categories\n        raise NotImplementedError\n", "", mode='text',
+        expect=[('C10.P', 'evolution.substitution_model.nucleotide.HKY.p_t_analytical::self.kappa.unsqueeze(0)')]),
+    Mut('c10-benign-hky-kappa-axis-under-its-own-rank-test', NUC, '', "        kappa = self.kappa\n        return torch.cat(",
+        "        kappa = self.kappa.unsqueeze(0).squeeze(0) if self.kappa.dim() == 1 else self.kappa\n        return torch.cat(", mode='text', benign=True),
+]
